@@ -5,6 +5,7 @@
 package harness
 
 import (
+	"github.com/google/badwolf/xverif/sim"
 	"bufio"
 	"sync/atomic"
 	"regexp"
@@ -260,21 +261,8 @@ func RunShard(t *testing.T) {
 	hashes := map[string]bool{}
 	t0 := time.Now()
 	idx := start
-	// per-case watchdog (real clock, outside every bubble): a case that does not finish - e.g. an
-	// un-instrumented goroutine spinning, which no scheduler can see - ends the process; the parent
-	// finds the open case in the journal and confirms it alone.
-	var caseStart atomic.Int64
-	caseStart.Store(time.Now().UnixNano())
-	caseLimit := time.Duration(envInt("BW_CASE_TIMEOUT_S", 40)) * time.Second
-	go func() {
-		for {
-			time.Sleep(500 * time.Millisecond)
-			if time.Duration(time.Now().UnixNano()-caseStart.Load()) > caseLimit {
-				fmt.Fprintf(os.Stderr, "bwsim watchdog: case did not finish within %v\n", caseLimit)
-				os.Exit(3)
-			}
-		}
-	}()
+	// per-case watchdog (real clock, outside every bubble): see startWatchdog
+	caseStart := startWatchdog()
 	for ; idx < start+maxCases; idx++ {
 		if idx%8 == 0 && time.Since(t0) > budget {
 			break
@@ -339,6 +327,37 @@ done:
 	jr.line("S", sum)
 }
 
+// startWatchdog watches the case in progress from outside every bubble (real clock). A case that runs longer than
+// BW_CASE_TIMEOUT_S ends the process: with exit status 3 when the simulation made no progress during the last
+// seconds (an un-instrumented goroutine spinning - which no scheduler can see - or a real deadlock of the harness:
+// a hang), with exit status 4 when runs are still being started or steps still counted (a slow case: the step cap
+// bounds it, it is not a verdict). The parent finds the open case in the journal. The caller stores the start time
+// of each case in the returned value.
+func startWatchdog() *atomic.Int64 {
+	var caseStart atomic.Int64
+	caseStart.Store(time.Now().UnixNano())
+	caseLimit := time.Duration(envInt("BW_CASE_TIMEOUT_S", 40)) * time.Second
+	go func() {
+		var lastRuns, lastSteps int64
+		lastChange := time.Now()
+		for {
+			time.Sleep(250 * time.Millisecond)
+			if r, s := sim.Progress(); r != lastRuns || s != lastSteps {
+				lastRuns, lastSteps, lastChange = r, s, time.Now()
+			}
+			if time.Duration(time.Now().UnixNano()-caseStart.Load()) > caseLimit {
+				if time.Since(lastChange) < 3*time.Second {
+					fmt.Fprintf(os.Stderr, "bwsim watchdog: slow case, still progressing after %v (runs=%d steps=%d)\n", caseLimit, lastRuns, lastSteps)
+					os.Exit(4)
+				}
+				fmt.Fprintf(os.Stderr, "bwsim watchdog: case did not finish within %v and made no progress for %v\n", caseLimit, time.Since(lastChange).Round(time.Second))
+				os.Exit(3)
+			}
+		}
+	}()
+	return &caseStart
+}
+
 // safeRun executes a case and converts a panic in the calling goroutine into a
 // violation whose class names the panicking repository function.
 func safeRun(h Harness, t *testing.T, c any) (o *Outcome) {
@@ -397,6 +416,7 @@ func readCase(h Harness) (any, []byte) {
 // runOne executes one case from a file BW_REPEAT times and prints the outcome.
 func runOne(t *testing.T, h Harness, jr *journal) {
 	c, _ := readCase(h)
+	startWatchdog()
 	rep := envInt("BW_REPEAT", 1)
 	var o *Outcome
 	for i := 0; i < rep; i++ {
